@@ -1861,7 +1861,34 @@ impl IoSim {
                 }
                 match res {
                     Ok(Ok(())) => {
-                        if w.disk != file {
+                        // Control before blaming the write faults: with the environment
+                        // rewound to the same point, does a fault-free save differ from a
+                        // save under the same plan? If the two agree, the difference seen
+                        // above comes from the serializer not being a function of its
+                        // input (C07's business), not from short or interrupted writes.
+                        let blame_faults = w.disk != file && {
+                            crate::env::rewind();
+                            let mut clean: Vec<u8> = Vec::new();
+                            let a = crate::panic::catch(|| encode_raw(format, src, &mut clean));
+                            crate::env::rewind();
+                            let mut w2 = SimWriter::new(plan);
+                            let b = crate::panic::catch(|| encode_raw(format, src, &mut w2));
+                            let mut same = matches!((&a, &b), (Ok(Ok(())), Ok(Ok(())))) && clean == w2.disk;
+                            if !same {
+                                crate::env::rewind();
+                                let mut clean2: Vec<u8> = Vec::new();
+                                let c = crate::panic::catch(|| encode_raw(format, src, &mut clean2));
+                                if matches!(c, Ok(Ok(()))) && (clean2 != clean || clean2 != file) {
+                                    // no reference output exists: fault-free saves differ
+                                    same = true;
+                                }
+                            }
+                            if same {
+                                ctx.count("probe:fault-free saves of one input differ (not asserted by C13)");
+                            }
+                            !same
+                        };
+                        if blame_faults {
                             ctx.violate(
                                 format!("benign-write-faults-change-output|{}", format.tag()),
                                 format!("with short/interrupted writes the sink holds {} bytes, fault-free output is {} bytes", w.disk.len(), file.len()),
@@ -1928,7 +1955,36 @@ impl IoSim {
                                     format!("write-failure-reported-as-success|{}", format.tag()),
                                     format!("sink failed at byte {} of {} ({}) but the serializer returned Ok", k, file.len(), if *zero { "Ok(0)" } else { "error" }),
                                 );
-                            } else if w.disk.len() < file.len() {
+                            } else if w.disk.len() < file.len() && {
+                                // Control before calling it a truncation: with the environment
+                                // rewound, a fault-free save and a save into the same sink are
+                                // compared with each other. If the sink holds the whole of
+                                // that fault-free output, nothing was lost; the length simply
+                                // is not a function of the input (C07's business, not C13's).
+                                crate::env::rewind();
+                                let mut clean: Vec<u8> = Vec::new();
+                                let a = crate::panic::catch(|| encode_raw(format, src, &mut clean));
+                                crate::env::rewind();
+                                let mut w2 = SimWriter::new(plan);
+                                w2 = if *zero { w2.zero_at(k) } else { w2.err_at(k, err_kind(*kind)) };
+                                let b = crate::panic::catch(|| encode_raw(format, src, &mut w2));
+                                let mut complete = matches!((&a, &b), (Ok(Ok(())), Ok(Ok(())))) && clean == w2.disk;
+                                if !complete {
+                                    // A nondeterminism the rewind does not reach (std's
+                                    // RandomState): two fault-free saves differ from each
+                                    // other, so there is no reference output to compare with.
+                                    crate::env::rewind();
+                                    let mut clean2: Vec<u8> = Vec::new();
+                                    let c = crate::panic::catch(|| encode_raw(format, src, &mut clean2));
+                                    if matches!(c, Ok(Ok(()))) && (clean2 != clean || clean2 != file) {
+                                        complete = true;
+                                    }
+                                }
+                                if complete {
+                                    ctx.count("probe:fault-free saves of one input differ (not asserted by C13)");
+                                }
+                                !complete
+                            } {
                                 // The sink could only take k bytes (a short write up to the
                                 // fault), the serializer never came back for the rest and
                                 // still reported success: the output is silently truncated.
